@@ -1,8 +1,11 @@
 (* Machine-level model of src/cgfx.rs (3DS CGFX container) -- definitions only.
    Header (20 bytes, magic checked) -> DATA block directly behind it (its magic is not checked):
    sixteen (count, self-relative offset) pairs, ALL of them converted with
-   `reader.position() as u32 + reader.read_u32()?` (a u32 sum under the build's mode; the position
-   is the one of the offset field itself) -> DICT at entry[1].offset: entry_count records of 16 bytes
+   `(reader.position() as u32).wrapping_add(reader.read_u32()?)` (the position is the one of the offset
+   field itself; the sum is taken modulo 2^32 in both build profiles, so an offset field may be "negative"
+   and designate something in front of the field.  Repaired code, finding F23: the sum used to be a plain
+   `+`, which panics in a checked build on such a file; the pre-repair expression is [rel32g (Some m)], kept
+   for the witness lemma cgfx_backward_unrepaired_panics in Proofs/TexCgfx.v) -> DICT at entry[1].offset: entry_count records of 16 bytes
    behind a 28-byte head, two self-relative offsets each -> one TXOB per record (all of them are
    read before any payload) -> parse_textures: payload (`size` bytes), name (the TXOB's own name
    pointer, UTF-8, decoded without BOM sniffing after the repair F20), decode.
@@ -16,9 +19,15 @@ Local Open Scope N_scope.
 
 Definition CGFX_MAGIC : N := 0x58464743.       (* "CGFX" little-endian *)
 
-(* `reader.position() as u32 + reader.read_u32()?` with the cursor at p *)
-Definition rel32 (m : mode) (f : bytes) (p : N) : outcome N :=
-  v <- rd32 LE f p ;; add32 m (trunc_w 32 p) v.
+(* the self-relative offset at cursor position p.
+   [None]: `(reader.position() as u32).wrapping_add(reader.read_u32()?)` -- the code as it is;
+   [Some m]: `reader.position() as u32 + reader.read_u32()?` under the build's mode -- before the repair F23 *)
+Definition rel32g (r : option mode) (f : bytes) (p : N) : outcome N :=
+  v <- rd32 LE f p ;;
+  match r with
+  | None => Ok ((trunc_w 32 p + v) mod 2 ^ 32)
+  | Some m => add32 m (trunc_w 32 p) v
+  end.
 
 (* Header::new; the cursor ends at 0x14 *)
 Definition cgfx_header (f : bytes) : outcome unit :=
@@ -32,55 +41,55 @@ Definition cgfx_header (f : bytes) : outcome unit :=
   Ok tt.
 
 (* the 16 entries of DATA::new, cursor at p: the list of offsets *)
-Fixpoint cgfx_data_entries (m : mode) (f : bytes) (p : N) (n : nat) : outcome (list N) :=
+Fixpoint cgfx_data_entries (r : option mode) (f : bytes) (p : N) (n : nat) : outcome (list N) :=
   match n with
   | O => Ok []
   | S n' =>
     _ <- rd32 LE f p ;;
-    off <- rel32 m f (p + 4) ;;
-    r <- cgfx_data_entries m f (p + 8) n' ;;
-    Ok (off :: r)
+    off <- rel32g r f (p + 4) ;;
+    rest <- cgfx_data_entries r f (p + 8) n' ;;
+    Ok (off :: rest)
   end.
-Definition cgfx_data (m : mode) (f : bytes) : outcome (list N) :=
+Definition cgfx_data (r : option mode) (f : bytes) : outcome (list N) :=
   _ <- rd32 LE f 0x14 ;;
   _ <- rd32 LE f 0x18 ;;
-  cgfx_data_entries m f 0x1C 16.
+  cgfx_data_entries r f 0x1C 16.
 
 (* the entry loop of DICT::new, cursor at p: the object offsets *)
-Fixpoint cgfx_dict_entries (fuel : nat) (m : mode) (f : bytes) (p remaining : N) : outcome (list N) :=
+Fixpoint cgfx_dict_entries (fuel : nat) (r : option mode) (f : bytes) (p remaining : N) : outcome (list N) :=
   if remaining =? 0 then Ok [] else
   match fuel with
   | O => Err EOutOfFuel
   | S fuel' =>
-    _ <- rel32 m f (p + 8) ;;                     (* filename_offset of the record (not used later) *)
-    obj <- rel32 m f (p + 12) ;;
-    r <- cgfx_dict_entries fuel' m f (p + 16) (remaining - 1) ;;
-    Ok (obj :: r)
+    _ <- rel32g r f (p + 8) ;;                     (* filename_offset of the record (not used later) *)
+    obj <- rel32g r f (p + 12) ;;
+    rest <- cgfx_dict_entries fuel' r f (p + 16) (remaining - 1) ;;
+    Ok (obj :: rest)
   end.
-Definition cgfx_dict (m : mode) (f : bytes) (d : N) : outcome (list N) :=
+Definition cgfx_dict (r : option mode) (f : bytes) (d : N) : outcome (list N) :=
   _ <- rd32 LE f d ;;
   _ <- rd32 LE f (d + 4) ;;
   n <- rd32 LE f (d + 8) ;;
-  cgfx_dict_entries (S (length f)) m f (d + 28) n.
+  cgfx_dict_entries (S (length f)) r f (d + 28) n.
 
 Record txob := mkTxob { tx_name_ptr : N; tx_h : N; tx_w : N; tx_fmt : N; tx_size : N; tx_data_ptr : N }.
 
-Definition cgfx_txob (m : mode) (f : bytes) (o : N) : outcome txob :=
+Definition cgfx_txob (r : option mode) (f : bytes) (o : N) : outcome txob :=
   _ <- rd32 LE f o ;;
   _ <- rd32 LE f (o + 4) ;;
-  np <- rel32 m f (o + 12) ;;
+  np <- rel32g r f (o + 12) ;;
   h <- rd32 LE f (o + 24) ;;
   w <- rd32 LE f (o + 28) ;;
   _ <- rd32 LE f (o + 40) ;;
   fmt <- rd32 LE f (o + 52) ;;
   size <- rd32 LE f (o + 68) ;;
-  dp <- rel32 m f (o + 72) ;;
+  dp <- rel32g r f (o + 72) ;;
   Ok (mkTxob np h w fmt size dp).
 
-Fixpoint cgfx_txobs (m : mode) (f : bytes) (objs : list N) : outcome (list txob) :=
+Fixpoint cgfx_txobs (r : option mode) (f : bytes) (objs : list N) : outcome (list txob) :=
   match objs with
   | [] => Ok []
-  | o :: r => t <- cgfx_txob m f o ;; ts <- cgfx_txobs m f r ;; Ok (t :: ts)
+  | o :: rest => t <- cgfx_txob r f o ;; ts <- cgfx_txobs r f rest ;; Ok (t :: ts)
   end.
 
 Definition cgfx_texture (m : mode) (f : bytes) (t : txob) : outcome texture :=
@@ -95,11 +104,16 @@ Fixpoint cgfx_textures (m : mode) (f : bytes) (ts : list txob) : outcome (list t
   | t :: r => x <- cgfx_texture m f t ;; xs <- cgfx_textures m f r ;; Ok (x :: xs)
   end.
 
-(* cgfx::read *)
-Definition read_cgfx (m : mode) (f : bytes) : outcome (list texture) :=
+(* cgfx::read with the offset expression as a parameter *)
+Definition read_cgfx_g (r : option mode) (m : mode) (f : bytes) : outcome (list texture) :=
   _ <- cgfx_header f ;;
-  offs <- cgfx_data m f ;;
+  offs <- cgfx_data r f ;;
   d <- of_option EOther (nth_error offs 1) ;;      (* data.entry[1]: always present *)
-  objs <- cgfx_dict m f d ;;
-  txs <- cgfx_txobs m f objs ;;
+  objs <- cgfx_dict r f d ;;
+  txs <- cgfx_txobs r f objs ;;
   cgfx_textures m f txs.
+
+(* cgfx::read *)
+Definition read_cgfx (m : mode) (f : bytes) : outcome (list texture) := read_cgfx_g None m f.
+(* cgfx::read before the repair F23 *)
+Definition read_cgfx_unrepaired (m : mode) (f : bytes) : outcome (list texture) := read_cgfx_g (Some m) m f.
